@@ -21651,6 +21651,29 @@ impl<
 		))
 	}
 
+	/// Verification hook (C09): `FundedChannel::verif_closing_gate_dump` of a funded channel of this
+	/// manager (read-only): everything the closing_signed gate reads.
+	pub fn verif_closing_gate_dump(
+		&self, counterparty_node_id: &PublicKey, channel_id: &ChannelId,
+	) -> Option<String> {
+		let per_peer_state = self.per_peer_state.read().unwrap();
+		let peer_state = per_peer_state.get(counterparty_node_id)?.lock().unwrap();
+		let chan = peer_state.channel_by_id.get(channel_id)?.as_funded()?;
+		Some(chan.verif_closing_gate_dump())
+	}
+
+	/// Verification hook (C09): `ChannelContext::closing_negotiation_ready` of a funded channel of this
+	/// manager evaluated as if its `channel_state` were `state` (`ChannelState::from_u32`; `None` if
+	/// that is not a state). The channel is left unchanged.
+	pub fn verif_closing_ready_for_state(
+		&self, counterparty_node_id: &PublicKey, channel_id: &ChannelId, state: u32,
+	) -> Option<bool> {
+		let per_peer_state = self.per_peer_state.read().unwrap();
+		let mut peer_state = per_peer_state.get(counterparty_node_id)?.lock().unwrap();
+		let chan = peer_state.channel_by_id.get_mut(channel_id)?.as_funded_mut()?;
+		chan.verif_closing_ready_for_state(state)
+	}
+
 	/// Canonical text (one line per item, hash-map order removed) of the payment / HTLC state a
 	/// `ChannelManager` persists outside of its channels: `claimable_payments` (per HTLC: value,
 	/// sender_intended_value, total, cltv_expiry, timer_ticks, skimmed fee, previous hop),
